@@ -25,7 +25,7 @@ DIFF = [('size', [['maxsize', 1, []]]), ('cost', [['maxsize', 1, []], ['mincost'
 
 def plan(tier):
     return {'cases_per_shard': 500 if tier == 'quick' else 10000,
-            'time_cap_s': 45 if tier == 'quick' else 560}
+            'time_cap_s': 90 if tier == 'quick' else 560}
 
 
 def run_case(cs, ctx):
